@@ -9,6 +9,7 @@ namespace RichModel
 namespace Wrap
 open Text
 variable {σ : Type}
+variable {chars : Bool}
 
 /-- erase the null style `""` (the identity of rich's style algebra) from every effective style -/
 def dropNull [BEq σ] (A : StyleAlg σ) (v : List (Char × List σ)) : List (Char × List σ) :=
@@ -64,16 +65,16 @@ theorem wrapLine_fold_full_ink [BEq σ] [LawfulBEq σ] (cw : Char → Nat) (hsp 
     (hplain : lines.map (·.plain) = pieces (divideLine cw P.plain w true) P.plain)
     (hinv : ∀ l ∈ lines, Inv l)
     (hfit : ∀ p ∈ pieces (divideLine cw P.plain w true) P.plain, cellLen cw (pyRstrip p) ≤ w) :
-    ∃ out, wrapLine WVariant.repaired cw A P w Justify.full Overflow.fold false = .ok out ∧
+    ∃ out, wrapLine (WVariant.fixed chars) cw A P w Justify.full Overflow.fold false = .ok out ∧
       dropNull A (nsv (out.flatMap Text.view)) = dropNull A (nsv P.view) ∧ ∀ l ∈ out, Text.Inv l := by
   -- the stripped lines
-  have hstr : ∀ l ∈ lines, SameInk l (l.rstripEnd Variant.repaired (w : Int)) ∧
-      cellLen cw (pyRstrip (l.rstripEnd Variant.repaired (w : Int)).plain) ≤ w := by
+  have hstr : ∀ l ∈ lines, SameInk l (Text.rstripEndW chars cw Variant.repaired l (w : Int)) ∧
+      cellLen cw (pyRstrip (Text.rstripEndW chars cw Variant.repaired l (w : Int)).plain) ≤ w := by
     intro l hl
-    obtain ⟨h0, hr0⟩ := rstripEnd_sameInk l (hinv l hl) w
+    obtain ⟨h0, hr0⟩ := rstripEnd_sameInk (chars := chars) cw l (hinv l hl) w
     refine ⟨h0, ?_⟩
     rw [hr0]; apply hfit; rw [← hplain]; exact List.mem_map_of_mem hl
-  obtain ⟨outs, hjf, _, hrel⟩ := justifyFull_spec cw hsp A w (lines.map (fun l => l.rstripEnd Variant.repaired (w : Int)))
+  obtain ⟨outs, hjf, _, hrel⟩ := justifyFull_spec cw hsp A w (lines.map (fun l => Text.rstripEndW chars cw Variant.repaired l (w : Int)))
     (by intro s hs; obtain ⟨l, hl, rfl⟩ := List.mem_map.mp hs; exact (hstr l hl).1.inv)
   obtain ⟨h1, h2⟩ := fullRel_fold_ink cw A w _ outs hrel
     (by intro s hs; obtain ⟨l, hl, rfl⟩ := List.mem_map.mp hs; exact ⟨(hstr l hl).1.inv, (hstr l hl).2⟩)
@@ -83,7 +84,8 @@ theorem wrapLine_fold_full_ink [BEq σ] [LawfulBEq σ] (cw : Char → Nat) (hsp 
     show (P.divide Variant.repaired _ >>= _) = _
     rw [hdiv]
     simp only [bind, Except.bind, justifyLines]
-    rw [show WVariant.repaired.text = Variant.repaired from rfl, hjf]
+    rw [show (WVariant.fixed chars).text = Variant.repaired from rfl,
+      show (WVariant.fixed chars).rstripChars = chars from rfl, hjf]
   · rw [h1, List.flatMap_map]
     rw [nsv_flatMap_congr _ Text.view lines (fun l hl => (hstr l hl).1.ink)]
     rw [List.flatMap_def, hview, pieces_flatten _ _ hasc]
